@@ -93,6 +93,150 @@ class DfltSchemaGen(yanggen.SchemaGen):
         return yanggen.SChoice(self.nm("ch"), cases, default=default, mandatory=mand)
 
 
+class DChoice(yanggen.SChoice):
+    """SChoice that writes the cases named in .shorthand as shorthand cases (YANG 7.9.2: the single node stands for a case
+    of its own name; the compiled module is the same)"""
+    shorthand = ()
+
+    def yang(self, ind, cfg_parent=True):
+        s = "%schoice %s {" % (ind, self.name)
+        if self.default:
+            s += " default %s;" % self.default
+        if self.mandatory:
+            s += " mandatory true;"
+        s += self.common() + "\n"
+        for cn, ns in self.cases:
+            if cn in self.shorthand:
+                s += ns[0].yang(ind + "  ", cfg_parent)
+                continue
+            s += "%s  case %s {\n" % (ind, cn)
+            for c in ns:
+                s += c.yang(ind + "    ", cfg_parent)
+            s += "%s  }\n" % ind
+        return s + ind + "}\n"
+
+
+class DeepChoiceGen(DfltSchemaGen):
+    """DfltSchemaGen that adds one DEEP choice (3-4 levels: choice -> case -> choice -> case -> ... -> leaf) whose cases on
+    the way hold, next to the nested choice, a default leaf, an NP container holding a default leaf and / or a default
+    leaf-list - the nodes lyd_new_implicit must create for the case of EVERY enclosing choice when the only explicit data
+    sit in the innermost case (the walk scase->parent != snode in lyd_new_implicit). Some cases are shorthand cases.
+    .deep_inner is the innermost leaf, .deep_outer the ids of all other nodes of the structure (their instances are
+    removed from the generated trees)."""
+
+    def dleaf(self, config):
+        for _ in range(20):
+            lf = self.leaf(config, allow_mand=False)
+            if isinstance(lf.type, yanggen.TEmpty):
+                continue
+            if lf.default is None:
+                lf.default = lf.type.valid(self.rng)
+            lf.mandatory = False
+            return lf
+        raise RuntimeError("no leaf")
+
+    def plain(self, config):
+        lf = self.leaf(config, allow_mand=False)
+        lf.default, lf.mandatory = None, False
+        return lf
+
+    def deep(self, levels, config=True):
+        rng = self.rng
+        outer = []
+        inner = self.plain(config)
+        node = inner
+        for lv in range(levels):
+            # the case on the path: implicit nodes around the nested choice / innermost leaf
+            members = [node]
+            extra = []
+            if rng.random() < 0.8:
+                extra.append(self.dleaf(config))
+            if rng.random() < 0.6:
+                extra.append(yanggen.SContainer(self.nm("c"), [self.dleaf(config)] + ([self.plain(config)] if rng.random() < 0.4 else []),
+                                                presence=False, config=config))
+            if rng.random() < 0.3:
+                ll = self.leaflist(config)
+                if ll.defaults and not ll.minel:
+                    extra.append(ll)
+            if not extra:
+                extra.append(self.dleaf(config))
+            for x in extra:
+                members.insert(rng.randrange(len(members) + 1), x)
+            cases = [(self.nm("cs"), members)]
+            short = []
+            for _ in range(rng.randrange(1, 3)):
+                other = self.plain(config) if rng.random() < 0.6 else self.dleaf(config)
+                if rng.random() < 0.5:
+                    cases.append((other.name, [other]))
+                    short.append(other.name)
+                else:
+                    cases.append((self.nm("cs"), [other]))
+                extra.append(other)
+            rng.shuffle(cases)
+            r = rng.random()
+            default = None if r < 0.5 else (cases[0][0] if r < 0.75 else [c for c in cases if c[1] is members][0][0])
+            ch = DChoice(self.nm("ch"), cases, default=default)
+            ch.shorthand = tuple(short)
+            for x in extra:
+                outer.append(x)
+                if x.kind == "container":
+                    outer += x.children
+            node = ch
+        self.deep_inner, self.deep_outer = inner, {id(x) for x in outer}
+        return node
+
+    def module(self, name="m1", depth=3):
+        rng = self.rng
+        nodes = self.nodes(depth - 1, count=rng.randrange(1, 4))
+        levels = rng.choice([3, 3, 4])
+        r = rng.random()
+        if r < 0.5:
+            nodes.insert(rng.randrange(len(nodes) + 1), self.deep(levels))
+        elif r < 0.8:
+            nodes.insert(rng.randrange(len(nodes) + 1), yanggen.SContainer(self.nm("c"), [self.plain(True), self.deep(levels)],
+                                                                       presence=rng.random() < 0.5))
+        else:
+            lst = self.list(1, True)
+            ch = self.deep(levels, lst.config)
+            lst.children.append(ch)
+            ch.parent = lst
+            nodes.insert(rng.randrange(len(nodes) + 1), lst)
+        return yanggen.Module(name, nodes, annotations=["note"])
+
+
+def deep_forest(rng, g, ig, m):
+    """a tree of module m (DeepChoiceGen g) in which the only explicit data of the deep choice is its innermost leaf"""
+    def prune(ns, under):
+        out = []
+        for n in ns:
+            if id(n.schema) in g.deep_outer or n.schema is g.deep_inner:
+                continue
+            n.children = prune(n.children, n.schema)
+            out.append(n)
+        return out
+
+    def holder(s):
+        p = s.parent
+        while p is not None and p.kind == "choice":
+            p = p.parent
+        return p
+
+    f = prune(ig.forest(m, config_only=False), None)
+    if rng.random() < 0.85:
+        h = holder(g.deep_inner)
+        inst = ig.term(g.deep_inner)
+        if h is None:
+            f.append(inst)
+        else:
+            tops = [n for n, _, _ in yanggen.walk(f) if n.schema is h]
+            if not tops and h.parent is None and h.kind == "container":
+                tops = [yanggen.DNode(h, children=[])]
+                f.append(tops[0])
+            for t in tops:
+                t.children.append(ig.term(g.deep_inner))
+    return f
+
+
 class DfltInstGen(yanggen.InstGen):
     """InstGen whose leaf-lists with schema defaults often mix explicit instances equal to a default value with others, in
     every order for user-ordered / state leaf-lists (report-all-tagged must tag exactly the default-valued instances)"""
@@ -114,16 +258,17 @@ class DfltInstGen(yanggen.InstGen):
         return super().instances(n, depth, forced)
 
 
-def dflt_case(rng, **kw):
-    """(module, instance generator): what Tree.v models, no unique statements"""
+def dflt_case(rng, deep=False, **kw):
+    """(module, instance generator): what Tree.v models, no unique statements; deep: (module, generator, schema generator)
+    of a module with a deep choice (DeepChoiceGen)"""
     for _ in range(50):
-        g = DfltSchemaGen(rng, adversarial=False, key_filter=treeenc.key_type_ok, **kw)
+        g = (DeepChoiceGen if deep else DfltSchemaGen)(rng, adversarial=False, key_filter=treeenc.key_type_ok, **kw)
         m = g.module()
         for n in m.all_nodes():
             if n.kind == "list":
                 n.unique = None
         if treeenc.supported(m):
-            return m, DfltInstGen(rng, meta_prob=0.0)
+            return (m, DfltInstGen(rng, meta_prob=0.0), g) if deep else (m, DfltInstGen(rng, meta_prob=0.0))
     raise RuntimeError("no supported module generated")
 
 
@@ -211,10 +356,14 @@ class DfltModel(Comp):
     def gen(self, rng, tier, scale=1.0):
         pre = []
         for i in range(self.n(tier, 1200, 40000, scale)):
-            m, ig = dflt_case(rng, userord=(i % 3 == 0), state=(i % 2 == 0), constraints=(i % 4 != 3))
+            deep = i % 4 == 1               # a deep choice with implicit nodes in every case on the way, data only innermost
+            if deep:
+                m, ig, sg = dflt_case(rng, deep=True, userord=(i % 3 == 0), state=(i % 2 == 0), constraints=False)
+            else:
+                m, ig = dflt_case(rng, userord=(i % 3 == 0), state=(i % 2 == 0), constraints=(i % 4 != 3))
             if i % 5 == 0:
                 ig.edp = 0.8                # many explicit nodes that carry the default value
-            f = ig.forest(m, config_only=False)
+            f = deep_forest(rng, sg, ig, m) if deep else ig.forest(m, config_only=False)
             if i % 9 == 0:
                 f = []                       # empty tree: only lyd_new_implicit_all does something
             s = Script()
